@@ -421,14 +421,145 @@ def OK : Pipe → Val → Prop
   | zipidx p, x => p.OK x
   | _, _ => True
 
+/-! ### the fuel a pipeline needs
+
+Go has no fuel.  `Pipe.WB` is `Pipe.OK` without the `length < FUEL` side conditions (callbacks do not
+panic, no unbounded `Generate`); `Pipe.need p x` is the explicit bound: the longest list that is fed
+to one of the loops that are unbounded in Go (`DropWhile`, `Filter`, `FilterNot`, `FlatMap`,
+`FilterMap`) anywhere in the pipeline, including inside the iterators built by `FlatMap` callbacks.
+Every theorem about `machineF fuel` holds for every `fuel > need`. -/
+
+def listMax : List Nat → Nat
+  | [] => 0
+  | a :: as => Max.max a (listMax as)
+
+theorem le_listMax {l : List Nat} {a : Nat} (h : a ∈ l) : a ≤ listMax l := by
+  induction l with
+  | nil => cases h
+  | cons b l ih =>
+    rcases List.mem_cons.mp h with rfl | h
+    · exact Nat.le_max_left _ _
+    · exact Nat.le_trans (ih h) (Nat.le_max_right _ _)
+
+theorem listMax_lt {l : List Nat} {n : Nat} (hn : 0 < n) (h : ∀ a, a ∈ l → a < n) : listMax l < n := by
+  induction l with
+  | nil => exact hn
+  | cons b l ih =>
+    exact Nat.max_lt.mpr ⟨h b (List.mem_cons_self ..), ih (fun a ha => h a (List.mem_cons_of_mem _ ha))⟩
+
+/-- the pipeline is well-behaved for argument `x`: callbacks do not panic, no unbounded `Generate`;
+    the callback of `FlatMap` needs to behave only on the elements of the source.  No fuel. -/
+def WB : Pipe → Val → Prop
+  | src _ _, _ => True
+  | seq _, _ => True
+  | arg _, _ => True
+  | gen _ _ _, _ => False
+  | range _ _ _, _ => True
+  | opt _, _ => True
+  | empty, _ => True
+  | zero, _ => True
+  | rev _, _ => True
+  | pullseq _ _, _ => True
+  | map p f, x => p.WB x ∧ Total f (pure1 f)
+  | tap p f, x => p.WB x ∧ Total f (fun _ => ())
+  | take p _, x => p.WB x
+  | drop p _, x => p.WB x
+  | takew p f, x => p.WB x ∧ Total f (pure1 f)
+  | dropw p f, x => p.WB x ∧ Total f (pure1 f)
+  | filter p f, x => p.WB x ∧ Total f (pure1 f)
+  | filternot p f, x => p.WB x ∧ Total f (pure1 f)
+  | concat p q, x => p.WB x ∧ q.WB x
+  | flatmap p pre k, x => p.WB x ∧ Total pre (pure1 pre) ∧ (∀ a, a ∈ p.denote x → k.WB a)
+  | filtermap p f, x => p.WB x ∧ Total f (pure1 f)
+  | scan p _ f, x => p.WB x ∧ Total2 f (pure2 f)
+  | zip p q, x => p.WB x ∧ q.WB x
+  | zip3 p q r, x => p.WB x ∧ q.WB x ∧ r.WB x
+  | zipidx p, x => p.WB x
+
+/-- THE BOUND: every fuel `> need p x` suffices for pipeline `p` (argument `x`) -/
+def need : Pipe → Val → Nat
+  | src _ _, _ => 0
+  | seq _, _ => 0
+  | arg _, _ => 0
+  | gen _ _ _, _ => 0
+  | range _ _ _, _ => 0
+  | opt _, _ => 0
+  | empty, _ => 0
+  | zero, _ => 0
+  | rev _, _ => 0
+  | pullseq _ _, _ => 0
+  | map p _, x => p.need x
+  | tap p _, x => p.need x
+  | take p _, x => p.need x
+  | drop p _, x => p.need x
+  | takew p _, x => p.need x
+  | dropw p _, x => Max.max (p.need x) (p.denote x).length
+  | filter p _, x => Max.max (p.need x) (p.denote x).length
+  | filternot p _, x => Max.max (p.need x) (p.denote x).length
+  | concat p q, x => Max.max (p.need x) (q.need x)
+  | flatmap p _ k, x => Max.max (p.need x) (Max.max (p.denote x).length (listMax ((p.denote x).map (fun a => k.need a))))
+  | filtermap p _, x => Max.max (p.need x) (p.denote x).length
+  | scan p _ _, x => p.need x
+  | zip p q, x => Max.max (p.need x) (q.need x)
+  | zip3 p q r, x => Max.max (p.need x) (Max.max (q.need x) (r.need x))
+  | zipidx p, x => p.need x
+
+/-- the old hypothesis is the new one at the oracle's fuel constant -/
+theorem OK_iff (p : Pipe) : ∀ x, p.OK x ↔ (p.WB x ∧ p.need x < FUEL) := by
+  have hF : 0 < FUEL := by decide
+  induction p with
+  | src _ _ | seq _ | arg _ | range _ _ _ | opt _ | empty | zero | rev _ | pullseq _ _ =>
+    intro x; simp only [OK, WB, need]; exact ⟨fun _ => ⟨trivial, hF⟩, fun _ => trivial⟩
+  | gen _ _ _ => intro x; simp [OK, WB]
+  | map p f ih | tap p f ih | takew p f ih | scan p z f ih =>
+    intro x; simp only [OK, WB, need, ih x]
+    constructor
+    · rintro ⟨⟨h1, h2⟩, h3⟩; exact ⟨⟨h1, h3⟩, h2⟩
+    · rintro ⟨⟨h1, h3⟩, h2⟩; exact ⟨⟨h1, h2⟩, h3⟩
+  | take p n ih | drop p n ih | zipidx p ih => intro x; simp only [OK, WB, need, ih x]
+  | dropw p f ih | filter p f ih | filternot p f ih | filtermap p f ih =>
+    intro x; simp only [OK, WB, need, ih x, Nat.max_lt]
+    constructor
+    · rintro ⟨⟨h1, h2⟩, h3, h4⟩; exact ⟨⟨h1, h3⟩, h2, h4⟩
+    · rintro ⟨⟨h1, h3⟩, h2, h4⟩; exact ⟨⟨h1, h2⟩, h3, h4⟩
+  | concat p q ihp ihq | zip p q ihp ihq =>
+    intro x; simp only [OK, WB, need, ihp x, ihq x, Nat.max_lt]
+    constructor
+    · rintro ⟨⟨h1, h2⟩, h3, h4⟩; exact ⟨⟨h1, h3⟩, h2, h4⟩
+    · rintro ⟨⟨h1, h3⟩, h2, h4⟩; exact ⟨⟨h1, h2⟩, h3, h4⟩
+  | zip3 p q r ihp ihq ihr =>
+    intro x; simp only [OK, WB, need, ihp x, ihq x, ihr x, Nat.max_lt]
+    constructor
+    · rintro ⟨⟨h1, h2⟩, ⟨h3, h4⟩, h5, h6⟩; exact ⟨⟨h1, h3, h5⟩, h2, h4, h6⟩
+    · rintro ⟨⟨h1, h3, h5⟩, h2, h4, h6⟩; exact ⟨⟨h1, h2⟩, ⟨h3, h4⟩, h5, h6⟩
+  | flatmap p pre k ihp ihk =>
+    intro x; simp only [OK, WB, need, ihp x, Nat.max_lt]
+    constructor
+    · rintro ⟨⟨h1, h2⟩, h3, h4, h5⟩
+      refine ⟨⟨h1, h3, fun a ha => ((ihk a).mp (h4 a ha)).1⟩, h2, h5, listMax_lt hF ?_⟩
+      intro n hn
+      obtain ⟨a, ha, rfl⟩ := List.mem_map.mp hn
+      exact ((ihk a).mp (h4 a ha)).2
+    · rintro ⟨⟨h1, h3, h4⟩, h2, h5, h6⟩
+      refine ⟨⟨h1, h2⟩, h3, fun a ha => (ihk a).mpr ⟨h4 a ha, ?_⟩, h5⟩
+      exact Nat.lt_of_le_of_lt (le_listMax (List.mem_map_of_mem (f := fun a => k.need a) ha)) h6
+
 /-- Joint invariant of the iterator and of its `concat` field (the components a later `Concat`
     iterates over, which share the state): `Rm` is a simulation for the iterator, `Rp` one for the
     components, and whenever the iterator will deliver `r`, the components together will deliver
     `r` (so consuming through the iterator — `Drop` — and then concatenating is sound). -/
+def JointF (fuel : Nat) (p : Pipe) (s : p.St) (l : List Val) : Prop :=
+  ∃ (Rm : p.St → List Val → List Val → Prop) (Rp : p.St → (Nat → List Val) → Prop),
+    Sim (machineF fuel p) Rm ∧ MSim (partsF fuel p) Rp ∧
+    (∀ s d r, Rm s d r → ∃ L, Rp s L ∧ flatFrom L 0 (partsF fuel p).n = r) ∧ ∃ d, Rm s d l
+
+/-- the joint invariant for the machines the oracle runs (fuel constant `FUEL`) -/
 def Joint (p : Pipe) (s : p.St) (l : List Val) : Prop :=
   ∃ (Rm : p.St → List Val → List Val → Prop) (Rp : p.St → (Nat → List Val) → Prop),
     Sim (machine p) Rm ∧ MSim (parts p) Rp ∧
     (∀ s d r, Rm s d r → ∃ L, Rp s L ∧ flatFrom L 0 (parts p).n = r) ∧ ∃ d, Rm s d l
+
+theorem Joint_iff (p : Pipe) (s : p.St) (l : List Val) : Joint p s l ↔ JointF FUEL p s l := Iff.rfl
 
 theorem represents_reset' {m : Machine σ α} {s : σ} {d r : List α} (h : Represents m s d r) :
     Represents m s [] r := by
@@ -444,88 +575,120 @@ theorem represents_reset' {m : Machine σ α} {s : σ} {d r : List α} (h : Repr
     obtain ⟨p, s', lg', e, h'⟩ := hS.next_nil s _ lg h
     exact ⟨p, s', lg', e, d0, h'⟩
 
-theorem Joint.represents {p : Pipe} {s : p.St} {l : List Val} (h : Joint p s l) :
-    Represents (machine p) s [] l := by
+theorem JointF.represents {fuel : Nat} {p : Pipe} {s : p.St} {l : List Val} (h : JointF fuel p s l) :
+    Represents (machineF fuel p) s [] l := by
   obtain ⟨Rm, _, hS, _, _, d, hd⟩ := h
   exact represents_reset' ⟨Rm, hS, hd⟩
 
+theorem Joint.represents {p : Pipe} {s : p.St} {l : List Val} (h : Joint p s l) :
+    Represents (machine p) s [] l := JointF.represents (fuel := FUEL) h
+
 /-- an iterator that is not a `Concat` result: its `concat` field is itself -/
-theorem Joint.ofRepresents {p : Pipe} {s : p.St} {l : List Val} (hparts : parts p = MMachine.single (machine p))
-    (h : Represents (machine p) s [] l) : Joint p s l := by
-  refine ⟨Represents (machine p), fun s L => ∃ d, Represents (machine p) s d (L 0), Represents.sim _, ?_, ?_, [], h⟩
+theorem JointF.ofRepresents {fuel : Nat} {p : Pipe} {s : p.St} {l : List Val}
+    (hparts : partsF fuel p = MMachine.single (machineF fuel p))
+    (h : Represents (machineF fuel p) s [] l) : JointF fuel p s l := by
+  refine ⟨Represents (machineF fuel p), fun s L => ∃ d, Represents (machineF fuel p) s d (L 0), Represents.sim _, ?_, ?_, [], h⟩
   · rw [hparts]; exact single_msim (Represents.sim _)
   · intro s d r hR
     refine ⟨fun _ => r, ⟨d, hR⟩, ?_⟩
     rw [hparts]
     simp [MMachine.single, flatFrom]
 
+theorem Joint.ofRepresents {p : Pipe} {s : p.St} {l : List Val} (hparts : parts p = MMachine.single (machine p))
+    (h : Represents (machine p) s [] l) : Joint p s l := JointF.ofRepresents (fuel := FUEL) hparts h
+
 /-! unfolding the (well-founded, hence irreducible) mutual definitions -/
 
-theorem parts_concat (a b : Pipe) : parts (.concat a b) = concatParts ((parts a).join (parts b)) := by
-  conv => lhs; unfold Pipe.parts
+theorem partsF_concat (fuel : Nat) (a b : Pipe) :
+    partsF fuel (.concat a b) = concatParts ((partsF fuel a).join (partsF fuel b)) := by
+  conv => lhs; unfold Pipe.partsF
 
-theorem parts_drop (a : Pipe) (n : Int) : parts (.drop a n) = parts a := by
-  conv => lhs; unfold Pipe.parts
+theorem partsF_drop (fuel : Nat) (a : Pipe) (n : Int) : partsF fuel (.drop a n) = partsF fuel a := by
+  conv => lhs; unfold Pipe.partsF
 
-theorem parts_single (p : Pipe) (h1 : ∀ a b, p ≠ .concat a b) (h2 : ∀ a n, p ≠ .drop a n) :
-    parts p = MMachine.single (machine p) := by
+theorem partsF_single (fuel : Nat) (p : Pipe) (h1 : ∀ a b, p ≠ .concat a b) (h2 : ∀ a n, p ≠ .drop a n) :
+    partsF fuel p = MMachine.single (machineF fuel p) := by
   cases p with
   | concat a b => exact absurd rfl (h1 a b)
   | drop a n => exact absurd rfl (h2 a n)
-  | _ => conv => lhs; unfold Pipe.parts
+  | _ => conv => lhs; unfold Pipe.partsF
 
-theorem parts_n_pos : ∀ (p : Pipe), 0 < (parts p).n := by
+theorem partsF_n_pos (fuel : Nat) : ∀ (p : Pipe), 0 < (partsF fuel p).n := by
   intro p
   induction p with
   | concat a b iha ihb =>
-    rw [parts_concat]; simp only [concatParts, MMachine.join]; omega
-  | drop q n ih => rw [parts_drop]; exact ih
-  | _ => rw [parts_single _ (by intros; simp) (by intros; simp)] <;> simp [MMachine.single]
+    rw [partsF_concat]; simp only [concatParts, MMachine.join]; omega
+  | drop q n ih => rw [partsF_drop]; exact ih
+  | _ => rw [partsF_single _ _ (by intros; simp) (by intros; simp)] <;> simp [MMachine.single]
 
-theorem machine_concat (a b : Pipe) : machine (.concat a b) = It.concat ((parts a).join (parts b)) := by
-  rw [machine]
+theorem machineF_concat (fuel : Nat) (a b : Pipe) :
+    machineF fuel (.concat a b) = It.concat ((partsF fuel a).join (partsF fuel b)) := by
+  rw [machineF]
 
-theorem machine_drop (a : Pipe) (n : Int) : machine (.drop a n) = machine a := by
-  rw [machine]
+theorem machineF_drop (fuel : Nat) (a : Pipe) (n : Int) : machineF fuel (.drop a n) = machineF fuel a := by
+  rw [machineF]
+
+theorem parts_concat (a b : Pipe) : parts (.concat a b) = concatParts ((parts a).join (parts b)) :=
+  partsF_concat FUEL a b
+
+theorem parts_drop (a : Pipe) (n : Int) : parts (.drop a n) = parts a := partsF_drop FUEL a n
+
+theorem parts_single (p : Pipe) (h1 : ∀ a b, p ≠ .concat a b) (h2 : ∀ a n, p ≠ .drop a n) :
+    parts p = MMachine.single (machine p) := partsF_single FUEL p h1 h2
+
+theorem parts_n_pos : ∀ (p : Pipe), 0 < (parts p).n := partsF_n_pos FUEL
+
+theorem machine_concat (a b : Pipe) : machine (.concat a b) = It.concat ((parts a).join (parts b)) :=
+  machineF_concat FUEL a b
+
+theorem machine_drop (a : Pipe) (n : Int) : machine (.drop a n) = machine a := machineF_drop FUEL a n
 
 /-- `a.Concat(b)`: iterates over the components of `a`, then those of `b` — also when `a` or `b`
     are `Concat` results that have already been partly consumed (by `Drop`). -/
-theorem Joint.concat {a b : Pipe} {sa : a.St} {sb : b.St} {la lb : List Val} (ha : Joint a sa la) (hb : Joint b sb lb) :
-    Joint (.concat a b) ((sa, sb), {}) (la ++ lb) := by
+theorem JointF.concat {fuel : Nat} {a b : Pipe} {sa : a.St} {sb : b.St} {la lb : List Val}
+    (ha : JointF fuel a sa la) (hb : JointF fuel b sb lb) :
+    JointF fuel (.concat a b) ((sa, sb), {}) (la ++ lb) := by
   obtain ⟨Rma, Rpa, _, hMa, hla, da, hda⟩ := ha
   obtain ⟨Rmb, Rpb, _, hMb, hlb, db, hdb⟩ := hb
   obtain ⟨La, hRpa, hfa⟩ := hla sa da la hda
   obtain ⟨Lb, hRpb, hfb⟩ := hlb sb db lb hdb
   have hms := join_msim hMa hMb
-  refine ⟨concatRel ((parts a).join (parts b)).n (joinRel (parts a).n Rpa Rpb),
-    fun sc L => joinRel (parts a).n Rpa Rpb sc.1 L, ?_, ?_, ?_, [], ?_⟩
-  · rw [machine_concat]; exact concat_sim hms
-  · rw [parts_concat]; exact concatParts_msim hms
+  refine ⟨concatRel ((partsF fuel a).join (partsF fuel b)).n (joinRel (partsF fuel a).n Rpa Rpb),
+    fun sc L => joinRel (partsF fuel a).n Rpa Rpb sc.1 L, ?_, ?_, ?_, [], ?_⟩
+  · rw [machineF_concat]; exact concat_sim hms
+  · rw [partsF_concat]; exact concatParts_msim hms
   · rintro ⟨s, c⟩ d r ⟨L, hR, hI⟩
     refine ⟨L, hR, ?_⟩
-    rw [parts_concat]
+    rw [partsF_concat]
     exact hI.flat.symm
-  · refine ⟨fun i => if i < (parts a).n then La i else Lb (i - (parts a).n), ⟨La, Lb, hRpa, hRpb, fun i => rfl⟩, ?_⟩
-    have hflat := flatFrom_join La Lb (fun i => if i < (parts a).n then La i else Lb (i - (parts a).n))
-      (parts a).n (parts b).n (fun i => rfl)
+  · refine ⟨fun i => if i < (partsF fuel a).n then La i else Lb (i - (partsF fuel a).n), ⟨La, Lb, hRpa, hRpb, fun i => rfl⟩, ?_⟩
+    have hflat := flatFrom_join La Lb (fun i => if i < (partsF fuel a).n then La i else Lb (i - (partsF fuel a).n))
+      (partsF fuel a).n (partsF fuel b).n (fun i => rfl)
     rw [hfa, hfb] at hflat
-    have hn : ((parts a).join (parts b)).n = (parts a).n + (parts b).n := rfl
-    have hpos := parts_n_pos a
+    have hn : ((partsF fuel a).join (partsF fuel b)).n = (partsF fuel a).n + (partsF fuel b).n := rfl
+    have hpos := partsF_n_pos fuel a
     refine ⟨by omega, rfl, ?_, by simp, fun j hj => absurd hj (Nat.not_lt_zero _)⟩
     rw [← hflat, hn]
-    rw [show (parts a).n + (parts b).n = ((parts a).n + (parts b).n - (0 + 1)) + 1 by omega]
+    rw [show (partsF fuel a).n + (partsF fuel b).n = ((partsF fuel a).n + (partsF fuel b).n - (0 + 1)) + 1 by omega]
     rfl
 
+theorem Joint.concat {a b : Pipe} {sa : a.St} {sb : b.St} {la lb : List Val} (ha : Joint a sa la) (hb : Joint b sb lb) :
+    Joint (.concat a b) ((sa, sb), {}) (la ++ lb) := JointF.concat (fuel := FUEL) ha hb
+
 /-- `q.Drop(n)` advances `q` itself at construction time; iterator and components stay in step. -/
-theorem Joint.drop {q : Pipe} {s : q.St} {l : List Val} (h : Joint q s l) (n : Int) (lg : Log) :
-    ∃ (s' : q.St) (lg' : Log), It.drop n (machine q) s lg = (.ok (), s', lg') ∧
-      Joint (.drop q n) s' (l.drop n.toNat) := by
+theorem JointF.drop {fuel : Nat} {q : Pipe} {s : q.St} {l : List Val} (h : JointF fuel q s l) (n : Int) (lg : Log) :
+    ∃ (s' : q.St) (lg' : Log), It.drop n (machineF fuel q) s lg = (.ok (), s', lg') ∧
+      JointF fuel (.drop q n) s' (l.drop n.toNat) := by
   obtain ⟨Rm, Rp, hS, hM, hl, d, hd⟩ := h
   obtain ⟨s', lg', e, hR⟩ := dropLoop_spec hS n.toNat s d l lg hd
   refine ⟨s', lg', e, Rm, Rp, ?_, ?_, ?_, _, hR⟩
-  · rw [machine_drop]; exact hS
-  · rw [parts_drop]; exact hM
-  · rw [parts_drop]; exact hl
+  · rw [machineF_drop]; exact hS
+  · rw [partsF_drop]; exact hM
+  · rw [partsF_drop]; exact hl
+
+theorem Joint.drop {q : Pipe} {s : q.St} {l : List Val} (h : Joint q s l) (n : Int) (lg : Log) :
+    ∃ (s' : q.St) (lg' : Log), It.drop n (machine q) s lg = (.ok (), s', lg') ∧
+      Joint (.drop q n) s' (l.drop n.toNat) := JointF.drop (fuel := FUEL) h n lg
 
 end Pipe
 
